@@ -419,7 +419,6 @@ func ruleR10_5(w *World, r *Report) {
 			{"store", ".Map", "", false, "", "a fresh identity map"},
 			{"mapupdate", "listSnapshot.Map", "", true, "", "every restored node is indexed"},
 			{"call", "insertNext", "", true, "", "every restored node is linked in stored order"},
-			{"call", "unmarshalAsNode", "", true, "", "every stored node is rebuilt"},
 		}},
 		{"listSnapshot", "MarshalJSON", []action{
 			{"store", ".Size", ".size", false, "", "the size is captured"},
@@ -490,25 +489,26 @@ func ruleR10_5(w *World, r *Report) {
 				cons += " <- " + a.val
 			}
 			found := false
-			forEachInstr(fn, func(in ssa.Instruction) {
+			d := deepOfDepth(fn, 2)
+			d.each(func(x dins) {
 				if found {
 					return
 				}
 				ok := false
-				switch x := in.(type) {
+				switch y := x.in.(type) {
 				case *ssa.Store:
-					ok = a.kind == "store" && strings.HasSuffix(canonName(x.Addr), a.what) && (a.val == "" || strings.Contains(canonName(x.Val), a.val))
+					ok = a.kind == "store" && strings.HasSuffix(d.name(x.n, y.Addr), a.what) && (a.val == "" || strings.Contains(d.name(x.n, y.Val), a.val))
 				case *ssa.MapUpdate:
-					ok = a.kind == "mapupdate" && (a.what == "" || mapFieldOf(x.Map) == a.what) && (a.val == "" || strings.Contains(canonName(x.Value), a.val))
+					ok = a.kind == "mapupdate" && (a.what == "" || mapFieldOf(y.Map) == a.what) && (a.val == "" || strings.Contains(d.name(x.n, y.Value), a.val))
 				case ssa.CallInstruction:
-					ok = a.kind == "call" && calleeName(x) == a.what
+					ok = a.kind == "call" && calleeName(y) == a.what
 				}
-				if !ok || (a.loop && !inLoop(in.Block())) {
+				if !ok || (a.loop && !d.inLoop(x)) {
 					return
 				}
 				if a.guard != "" {
-					lits, _ := litStrings(fn, in)
-					if !allPathsContain(lits, a.guard) {
+					ps, _ := d.paths(x, nil)
+					if !allLitPathsContain(ps, a.guard) {
 						return
 					}
 				}
